@@ -2,7 +2,10 @@
 
 package client
 
-import "bufio"
+import (
+	"bufio"
+	"context"
+)
 
 // vCheckPieces: the C11 obligations on a split of msg with effective limit S.
 func vCheckPieces(msg string, pieces []string, S int) {
@@ -143,3 +146,91 @@ func VerifC11Wire() {
 }
 
 var _ = bufio.NewReader
+
+func vFiller(c byte, n int) string {
+	b := make([]byte, n)
+	for i := range b {
+		b[i] = c
+	}
+	return string(b)
+}
+
+// vSplitLines cuts a wire transcript at CRLF; ok is false when it does not end in CRLF.
+func vSplitLines(all string) (lines []string, ok bool) {
+	start := 0
+	for i := 0; i+1 < len(all); i++ {
+		if all[i] == '\r' && all[i+1] == '\n' {
+			lines = append(lines, all[start:i])
+			start = i + 2
+			i++
+		}
+	}
+	return lines, start == len(all)
+}
+
+// VerifC11Long: a connected client (real send goroutine, real write) sends a text
+// just over a large SplitLen, or over the default 450 to a long target: the
+// pieces are read back from the bytes that reached the server end. The text is
+// a filler without split points with K symbolic bytes before the limit and up
+// to OVER after it.
+func VerifC11Long() {
+	vSetOpt("symIndex", 1)
+	S := vParam("SL", 600)
+	eff := S
+	if S < 13 {
+		eff = 450
+	}
+	K := vParam("K", 4)
+	tgt := vFiller('t', vParam("TGT", 1))
+	msg := vFiller('a', eff-K) + vGenText("tail", K+vLen("over", 0, vParam("OVER", 2)))
+	cfg := NewConfig("me")
+	cfg.Server, cfg.Proxy = "srv:1", "vtest://proxy"
+	cfg.PingFreq = 0
+	cfg.SplitLen = S
+	cfg.Flood = true
+	w := vNewLiveWire()
+	vInstallDialer(&vDialer{wire: w})
+	conn := Client(cfg)
+	ctx, cancel := context.WithCancel(context.Background())
+	err := conn.ConnectContext(ctx)
+	vAssume(err == nil)
+	vRunPending()
+	before := len(w.written)
+	prefix, suffix := "", ""
+	which := vLen("method", 0, 3)
+	switch which {
+	case 0:
+		conn.Privmsg(tgt, msg)
+		prefix = "PRIVMSG " + tgt + " :"
+	case 1:
+		conn.Notice(tgt, msg)
+		prefix = "NOTICE " + tgt + " :"
+	case 2:
+		conn.Ctcp(tgt, "X", msg)
+		prefix, suffix = "PRIVMSG "+tgt+" :\001X ", "\001"
+	case 3:
+		conn.CtcpReply(tgt, "X", msg)
+		prefix, suffix = "NOTICE "+tgt+" :\001X ", "\001"
+	}
+	vRunPending()
+	all := ""
+	for _, x := range w.written[before:] {
+		all += x
+	}
+	lines, ok := vSplitLines(all)
+	vAssert(ok, "wire-frame")
+	var pieces []string
+	for _, l := range lines {
+		ok := len(l) >= len(prefix)+len(suffix) && l[:len(prefix)] == prefix && l[len(l)-len(suffix):] == suffix
+		vAssert(ok, "wire-frame")
+		if !ok {
+			return
+		}
+		pieces = append(pieces, l[len(prefix):len(l)-len(suffix)])
+	}
+	vCheckPieces(msg, pieces, eff)
+	cancel()
+	conn.Close()
+	vRunPending()
+	vReach("end")
+}
